@@ -451,12 +451,48 @@ func gen(r *hx.Rand, tier string) []json.RawMessage {
 		out = append(out, hx.J(genVM(r.Fork(), tier)))
 	}
 	for i := 0; i < nleaf; i++ {
-		out = append(out, hx.J(genAsm(r.Fork(), tier, "leaf")))
+		out = append(out, hx.J(drawAsm(r.Fork(), tier, "leaf")))
 	}
 	for i := 0; i < nasm; i++ {
-		out = append(out, hx.J(genAsm(r.Fork(), tier, "any")))
+		out = append(out, hx.J(drawAsm(r.Fork(), tier, "any")))
 	}
 	return out
+}
+
+// quickMaxEvents bounds the trace length of the generated assemblies of the quick
+// tier: the acceptor's cost grows quadratically with the trace, and one 8000-event
+// history costs more than the rest of the tier together. The thorough tier keeps
+// whatever is drawn.
+const quickMaxEvents = 3000
+
+// drawAsm draws an assembly case; in the quick tier a case whose recorded trace is
+// longer than quickMaxEvents is drawn again (at most three more times; the shortest
+// is kept).
+func drawAsm(r *hx.Rand, tier, class string) input {
+	best, bestN := input{}, -1
+	for try := 0; try < 4; try++ {
+		rr := r // the first draw reads r itself, the later ones forks of what is left
+		if try > 0 {
+			rr = r.Fork()
+		}
+		in := genAsm(rr, tier, class)
+		if tier != "quick" {
+			return in
+		}
+		n := quickMaxEvents + 1
+		if c, err := runAsm(in.Asm); err == nil {
+			if o, ok := c.Obs.(obs); ok {
+				n = o.Events
+			}
+		}
+		if n <= quickMaxEvents {
+			return in
+		}
+		if bestN < 0 || n < bestN {
+			best, bestN = in, n
+		}
+	}
+	return best
 }
 
 // chunks proposes the index ranges [lo,hi) of up to eight contiguous chunks of the
@@ -493,7 +529,7 @@ func shrink(raw json.RawMessage) []json.RawMessage {
 		}
 	case "vm":
 		sc := in.VM.Script
-		for _, ch := range chunks(len(sc) - 4*(len(in.VM.TLBs)+1)) {
+		for _, ch := range chunks(len(sc) - 4*len(vmModules(in.VM))) {
 			c := *in.VM
 			c.Script = append(append([]VMOp{}, sc[:ch[0]]...), sc[ch[1]:]...)
 			out = append(out, hx.J(input{Kind: "vm", VM: &c}))
